@@ -25,6 +25,9 @@ def step (_ : Unit) (j : Json) : Except String (Unit × Drv.Out) := do
     let spec := targetStr (routeSpec (upgrade != "") (accept == "application/nostr+json") hasNip11 hasDefault)
     let mut o : Drv.Out := { nontrivial := true }
     o := o.tag s!"route.{impl}"
+    match fldD j "acceptMore" with
+    | .arr a => if a.size > 0 then o := o.tag "route.several-accept-lines"   -- the header's value is its first line
+    | _ => pure ()
     if impl != model then o := o.diff s!"route: impl={impl} model={model}"
     if impl != spec then o := o.mon "httpRoute" s!"route.{spec}" s!"upgrade={upgrade.quote} accept={accept.quote} nip11={hasNip11} default={hasDefault}: routed to {impl}, must be {spec}"
     if impl == "nip11" then
